@@ -417,8 +417,8 @@ fn worker(build: &str, seed: u64, n_calls: u64, index: u64, of: u64, trace: bool
                 if !r.panicked {
                     passes.extend(enumerate_passes(r.writes, r.bytes, r.allocs, r.clock_reads, &mut rng));
                 }
-                if st.samples.len() < 3 && (r.writes > 0 || r.allocs > 0) && index == 0 {
-                    st.samples.push(json!({"call": call.describe(), "control_pass": {"outcome": r.outcome, "sink_writes": r.writes, "sink_bytes": r.bytes, "allocations": r.allocs, "clock_readings": r.clock_reads}, "fault_passes_enumerated": passes.len() - 1}));
+                if idx < 40 && (r.writes > 0 || r.allocs > 0) {
+                    st.samples.push(json!({"call_index": idx, "call": call.describe(), "control_pass": {"outcome": r.outcome, "sink_writes": r.writes, "sink_bytes": r.bytes, "allocations": r.allocs, "clock_readings": r.clock_reads}, "fault_passes_enumerated": passes.len() - 1}));
                 }
             } else {
                 let kind = pass.kind();
@@ -792,10 +792,8 @@ fn coordinator(tier: &str, calls_override: Option<u64>, out: &std::path::Path) -
                     }
                 }
                 if let Some(a) = s["samples"].as_array() {
-                    for x in a {
-                        if samples.len() < 4 {
-                            samples.push(x.clone());
-                        }
+                    if build == builds[0] {
+                        samples.extend(a.iter().cloned());
                     }
                 }
                 if let Some(h) = s["hash"].as_str().and_then(|h| u64::from_str_radix(h, 16).ok()) {
@@ -939,6 +937,8 @@ fn coordinator(tier: &str, calls_override: Option<u64>, out: &std::path::Path) -
     for k in FAULT_KINDS {
         fk.insert(k.to_string(), json!({"configured": configured.get(k).copied().unwrap_or(0), "fired": fired.get(k).copied().unwrap_or(0)}));
     }
+    samples.sort_by_key(|s| s["call_index"].as_u64().unwrap_or(u64::MAX));
+    samples.truncate(4);
     if samples.is_empty() {
         samples.push(json!({"note": "no call with a seam sampled"}));
     }
